@@ -9,7 +9,7 @@
 (* with the property it belongs to, and the next line is examined, so the    *)
 (* whole trace is always checked.  The run is accepted when every line was   *)
 (* consumed and  bad  is empty (the report is written in the final state).   *)
-EXTENDS Lib, TLC, Json, IOUtils
+EXTENDS LibJudge, Json, IOUtils
 
 Trace == ndJsonDeserialize(IOEnv.VERIF_TRACE)
 
@@ -18,187 +18,12 @@ VARIABLES l,        \* next line of the trace
           nbad,     \* number of failed clauses per property
           cnt,      \* decisive events per expectation class
           canon,    \* C07: observation of the canonical spelling of the current spelling group
-          usedIv    \* C08: half-open intervals <<lo, hi>> of the random stream consumed by secrets so far
+          usedIv,   \* C08: half-open intervals <<lo, hi>> of the random stream consumed by secrets so far
+          solo      \* C11: what each planned call returned when it was run alone (plan index -> observation)
 
-vars == <<l, bad, nbad, cnt, canon, usedIv>>
+vars == <<l, bad, nbad, cnt, canon, usedIv, solo>>
 
 MaxBad == 60
-
-(* ---- binding of logged fields ---- *)
-OLook(orc, a, k, m) ==
-    LET hits == { i \in DOMAIN orc : orc[i][1] = a /\ orc[i][2] = k /\ orc[i][3] = m } IN
-    IF hits = {} THEN NoDigest ELSE orc[CHOOSE i \in hits : TRUE][4]
-
-P(e) == [nil |-> e.pnil, digits |-> e.digits, alg |-> e.alg, skew |-> e.skew, period |-> e.period]
-Reply(e) == [kind |-> e.kind, ok |-> e.ok, haserr |-> e.haserr, val |-> e.val, err |-> e.err]
-
-F(cond, e, p, r) == IF cond THEN <<>> ELSE << [id |-> e.id, p |-> p, r |-> r, want |-> <<>>] >>
-FX(cond, e, p, r, x) == IF cond THEN <<>> ELSE << [id |-> e.id, p |-> p, r |-> r, want |-> x] >>
-
-(* ---- expectation of an event ---- *)
-Expect(e) ==
-    LET Hm(a, k, m) == OLook(e.orc, a, k, m) IN
-    CASE e.op = "GenerateHOTP" -> GenHOTPExpect(Hm, e.secret, e.ctr, P(e))
-      [] e.op = "GenerateTOTP" -> GenTOTPExpect(Hm, e.secret, e.sec, e.step, P(e))
-      [] e.op = "ValidateHOTP" -> ValHOTPExpect(Hm, e.secret, e.code, e.ctr, P(e))
-      [] e.op = "ValidateTOTP" -> ValTOTPExpect(Hm, e.secret, e.code, e.sec, e.step, P(e))
-      [] e.op = "DecodeSecret" -> DecodeExpect(e.secret)
-      [] e.op = "GenerateOCRA" -> GenOCRAExpect(Hm, e.secret, e.x.su, e.x.in)
-      [] e.op = "ValidateOCRA" -> ValOCRAExpect(Hm, e.secret, e.code, e.x.su, e.x.in)
-      [] e.op = "OCRAQuestion" ->                      \* helper + generation end to end (C17)
-            IF DecChallengeExpect(e.x.q).class # "value" THEN AnyX
-            ELSE GenOCRAExpect(Hm, e.secret, e.x.su, [e.x.in EXCEPT !.challenge = D!NumericQuestion(e.x.q)])
-      [] e.op = "InputValidate" -> InputValidateExpect(e.x.cfg, e.x.in)
-      [] e.op \in {"SuiteValidate", "NewSuite"} -> SuiteValidateExpect(e.x.cfg)
-      [] e.op = "To8BE" -> To8BEExpect(e.x.v)
-      [] e.op \in {"ParseDec8", "ParseDec64"} -> ParseDec8Expect(e.x.s)
-      [] e.op = "LeftPadHex" -> LeftPadHexExpect(e.x.s, e.x.w)
-      [] e.op = "MustHexPadLeft" -> MustHexPadLeftExpect(e.x.s, e.x.size)
-      [] e.op = "ParseHexTimestamp" -> ParseHexTimestampExpect(e.x.s)
-      [] e.op = "ParseDecimalChallenge" -> DecChallengeExpect(e.x.s)
-      [] e.op = "HexInputToOCRA" -> IF HexFieldsOK(e.x.f) THEN AnyX ELSE ErrorX    \* values: HexFieldFails
-      [] e.op = "NewRawSuite" -> (CASE O!Reading(e.x.name).class = "malformed" -> ErrorX
-                                    [] O!Reading(e.x.name).class = "wellformed" -> [class |-> "row"]   \* judged by SuiteFails
-                                    [] OTHER -> AnyX)
-      [] e.op \in {"URLRoundTrip", "URLParse", "RandomSecret"} -> [class |-> "row"]      \* judged by URLFails / RandFails
-      [] e.op = "DigitsFromStr" -> Value(<<DigitsFromStr(e.x.s)>>)
-      [] e.op = "AlgorithmFromStr" -> Value(<<AlgFromStr(e.x.s)>>)
-      [] e.op = "AlgString" -> Value(AlgString(e.x.a))
-      [] OTHER -> AnyX
-
-OwnProp(e) == CASE e.op = "GenerateHOTP" -> "C01" [] e.op = "GenerateTOTP" -> "C02"
-                [] e.op = "ValidateHOTP" -> "C03" [] e.op = "ValidateTOTP" -> "C04"
-                [] e.op = "DecodeSecret" -> "C07"
-                [] e.op = "GenerateOCRA" -> "C05" [] e.op = "ValidateOCRA" -> "C06"
-                [] e.op \in {"InputValidate", "SuiteValidate", "NewSuite"} -> "C14"
-                [] e.op = "NewRawSuite" -> "C15"
-                [] e.op \in {"URLRoundTrip", "URLParse"} -> "C16"
-                [] e.op \in {"To8BE", "ParseDec8", "ParseDec64", "LeftPadHex", "MustHexPadLeft", "ParseHexTimestamp",
-                             "ParseDecimalChallenge", "HexInputToOCRA", "OCRAQuestion"} -> "C17"
-                [] e.op = "RandomSecret" -> "C08"
-                [] OTHER -> "C10"
-
-IsValidate(e) == e.op \in {"ValidateHOTP", "ValidateTOTP", "ValidateOCRA"}
-
-(* C13: the set of codes that would have been accepted by this call (for the disclosure clause) *)
-AcceptableCodes(e) ==
-    LET Hm(a, k, m) == OLook(e.orc, a, k, m) IN
-    IF B32!Region(e.secret) # "accept" THEN {}
-    ELSE CASE e.op \in {"ValidateHOTP", "GenerateHOTP"} ->
-                LET rp == ResolveHOTP(P(e)) IN
-                IF ~Supported(rp.alg, rp.digits) \/ W!Less(Ten, rp.skew) THEN {}
-                ELSE WindowCodes(Hm, rp.alg, B32!KeyOf(e.secret), rp.digits,
-                                 IF e.op = "GenerateHOTP" THEN {e.ctr} ELSE W!Window(e.ctr, W!ToNat(rp.skew))) \ {NoDigest}
-           [] e.op \in {"ValidateTOTP", "GenerateTOTP"} ->
-                LET rp == ResolveTOTP(P(e)) IN
-                IF ~Supported(rp.alg, rp.digits) \/ W!Less(Ten, rp.skew) THEN {}
-                ELSE WindowCodes(Hm, rp.alg, B32!KeyOf(e.secret), rp.digits,
-                                 IF e.op = "GenerateTOTP" THEN {e.step} ELSE W!Window(e.step, W!ToNat(rp.skew))) \ {NoDigest}
-           [] e.op \in {"ValidateOCRA", "GenerateOCRA"} ->
-                LET g == GenOCRAExpect(Hm, e.secret, e.x.su, e.x.in) IN
-                IF g.class = "value" THEN {g.val} ELSE {}
-           [] OTHER -> {}
-LeakFails(e) ==
-    IF ~e.haserr \/ Len(e.secret) = 0 THEN <<>>
-    ELSE F(~Discloses(e.err, e.secret, IF B32!Region(e.secret) = "accept" THEN B32!KeyOf(e.secret) ELSE <<>>, AcceptableCodes(e)),
-           e, "C13", "an error text contains the secret, the key or an acceptable code")
-
-(* the implementation's own HMAC invocations, observed through the verif hook *)
-(* e.mac = <<[slot, key, msg, sum], ...>>, e.macn = number of invocations, -1 = not observed *)
-StageFails(e, x) ==
-    IF e.macn < 0 \/ x.class \notin {"value", "accept", "refuse"} \/ B32!Region(e.secret) # "accept"
-       \/ e.op \notin {"GenerateHOTP", "ValidateHOTP", "GenerateTOTP", "ValidateTOTP", "GenerateOCRA", "ValidateOCRA"}
-    THEN <<>>
-    ELSE LET key == B32!KeyOf(e.secret)
-             alg == CASE e.op \in {"GenerateHOTP", "ValidateHOTP"} -> ResolveHOTP(P(e)).alg
-                      [] e.op \in {"GenerateTOTP", "ValidateTOTP"} -> ResolveTOTP(P(e)).alg
-                      [] OTHER -> EffCfg(e.x.su).hash
-         IN  F(\A i \in DOMAIN e.mac : e.mac[i][2] = key, e, OwnProp(e), "HMAC keyed with something else than the decoded secret")
-          \o F(\A i \in DOMAIN e.mac : e.mac[i][1] = alg, e, OwnProp(e), "HMAC of another hash than requested")
-          \o F(\A i \in DOMAIN e.mac : OLook(e.orc, e.mac[i][1], e.mac[i][2], e.mac[i][3]) \in {NoDigest, e.mac[i][4]},
-               e, OwnProp(e), "observed digest differs from HMAC(key, msg)")
-          \o (IF e.op = "GenerateHOTP" /\ x.class = "value"
-              THEN F(e.macn = 1 /\ e.mac[1][3] = e.ctr, e, "C01", "message is not the 8-byte big-endian counter")
-              ELSE <<>>)
-          \o (IF e.op = "GenerateTOTP" /\ x.class = "value"
-              THEN F(e.macn = 1 /\ e.mac[1][3] = e.step, e, "C02", "message is not the big-endian time step floor(t/period)")
-              ELSE <<>>)
-          \o (IF e.op = "GenerateOCRA" /\ x.class = "value"
-              THEN F(e.macn = 1 /\ e.mac[1][3] = O!Msg(EffCfg(e.x.su), e.x.in), e, "C05",
-                     "message is not suite-string, 0x00, then the selected fields C Q P S T in the documented layout")
-              ELSE <<>>)
-
-Fails(e, x) ==
-    LET r == Reply(e)
-    IN  F(x.class # "miss", e, "INC", "HMAC table lacks an entry the specification needs")
-     \o F(x.class # "badhint", e, "INC", "harness step hint is not floor(t/period)")
-     \o F(Returned(r), e, "C10", "operation did not return normally: " \o e.kind)
-     \o FX(Conforms(r, x), e, OwnProp(e), "reply differs from specification, expected class " \o x.class, x)
-     \o (IF IsValidate(e) /\ Returned(r)
-         THEN F(r.ok <=> ~r.haserr, e, "C13", "ambiguous verdict pair") ELSE <<>>)
-     \o (IF e.op = "ValidateTOTP" /\ e.macn >= 0
-         THEN F(e.macn <= MaxWork, e, "C04", "more than 21 HMAC evaluations in one validation") ELSE <<>>)
-     \o StageFails(e, x)
-
-(* ---- C15: a suite's configuration means what its string says ---- *)
-SuiteFails(e) ==
-    IF e.op # "NewRawSuite" THEN <<>>
-    ELSE LET rd == O!Reading(e.x.name)
-             ok == e.kind = "value"
-             y  == e.y
-         IN  F(rd.class = "malformed" => ~ok, e, "C15", "a malformed suite string is accepted")
-          \o F((ok /\ rd.class = "wellformed") => O!SameCfg(y.cfg, rd.cfg, rd.tsKnown), e, "C15",
-               "the configuration differs from what the suite string says")
-          \o F(ok => (y.str = e.x.name /\ y.cfg.raw = e.x.name), e, "C15", "a suite instantiated from a string does not report that string as its name")
-          \o F(ok => O!SuiteUsable(y.cfg), e, "C15", "an accepted suite string yields an unusable configuration")
-          \o F(y.inlist => ok, e, "C15", "an advertised suite name cannot be instantiated")
-          \o F(y.inlist <=> y.known, e, "C15", "the advertised list and the known-suite test disagree")
-          \o F((y.known /\ ok) => O!SameCfg(y.fromraws, y.cfg, TRUE), e, "C15", "lookup by name and instantiation disagree")
-
-(* ---- C17: the five hex request fields ---- *)
-HexFieldFails(e) ==
-    IF e.op # "HexInputToOCRA" \/ e.kind # "value" \/ ~HexFieldsOK(e.x.f) THEN <<>>
-    ELSE F(e.y.f = HexFieldsValue(e.x.f), e, "C17", "a hex request field is not decoded into the corresponding byte field")
-
-(* ---- C16: provisioning URLs ---- *)
-URLFails(e) ==
-    IF e.op = "URLRoundTrip" THEN
-        LET p == e.x.p  y == e.y IN
-        IF ~URLGenDefined(p) THEN F(~y.genok, e, "C16", "URL generated although issuer, account or secret is empty")
-        ELSE IF ~URLInDomain(p) THEN <<>>
-        ELSE F(y.genok, e, "C16", "URL generation failed for valid parameters")
-          \o (IF ~y.genok THEN <<>> ELSE
-               F(y.scheme = <<111, 116, 112, 97, 117, 116, 104>> /\ y.host = p.kindb, e, "C16", "scheme is not otpauth or type is not the requested one")
-            \o F(y.parseok, e, "C16", "the generated URL does not parse back")
-            \o (IF ~y.parseok THEN <<>> ELSE
-                 F(y.issuer = p.issuer, e, "C16", "issuer does not round-trip")
-              \o F(y.account = p.account, e, "C16", "account name does not round-trip")
-              \o F(y.secret = p.secret, e, "C16", "secret does not round-trip")
-              \o F(y.digits = NormDigits(p.digits), e, "C16", "code length does not round-trip (0 meaning 6)")
-              \o F(y.alg = p.alg, e, "C16", "hash does not round-trip")
-              \o F(y.period = NormPeriod(p.kind, p.period), e, "C16", "period does not round-trip (0 meaning 30)")))
-    ELSE IF e.op = "URLParse" THEN
-        LET x == e.x  y == e.y IN
-        (IF ~x.hasDigits \/ x.digitsText = <<>> THEN <<>>                  \* an empty value is an absent value
-         ELSE IF ~D!AtoiText(x.digitsText) THEN F(~y.ok, e, "C16", "non-numeric digits text accepted")
-         ELSE IF D!AtoiNeg(x.digitsText) \/ D!SmallMag(x.digitsText) \notin 0..255 THEN F(~y.ok, e, "C16", "a code length that cannot be represented is accepted (wrapped or truncated)")
-         ELSE F(y.ok => y.digits = D!SmallMag(x.digitsText), e, "C16", "the code length returned is not the number written in the URL"))
-     \o (IF ~x.hasPeriod \/ x.periodText = <<>> THEN <<>>
-         ELSE IF ~D!AtoiText(x.periodText) THEN F(~y.ok, e, "C16", "non-numeric period text accepted")
-         ELSE IF D!AtoiNeg(x.periodText) THEN F(~y.ok, e, "C16", "a negative period is accepted (wrapped)")
-         ELSE IF ~D!ParseUint64OK(D!AtoiMag(x.periodText)) THEN F(~y.ok, e, "C16", "a period beyond 64 bits is accepted")
-         ELSE F(y.ok => y.period = D!ParseUint64(D!AtoiMag(x.periodText)), e, "C16", "the period returned is not the number written in the URL"))
-    ELSE <<>>
-
-(* ---- C12: frame conditions carried by any event ---- *)
-HasField(rec, f) == f \in DOMAIN rec
-FrameFails(e) ==
-    (IF HasField(e.y, "frame")
-     THEN F(e.y.frame.pre = e.y.frame.post, e, "C12", "memory reachable from an argument (incl. spare capacity) changed during the call") ELSE <<>>)
- \o (IF HasField(e.y, "glob")
-     THEN F(e.y.glob.pre = e.y.glob.post, e, "C12", "exported defaults or the suite registry changed during the call") ELSE <<>>)
- \o (IF HasField(e.y, "retained")
-     THEN F(e.y.retained.before = e.y.retained.after, e, "C12", "a returned value changed after its arguments were overwritten / later calls were made") ELSE <<>>)
 
 (* ---- C08: random secrets are full-length output of the random source ---- *)
 (* e.y.reads = <<<<offset, length>>, ...>> : the reads of the substituted      *)
@@ -242,6 +67,16 @@ GroupFails(e) ==
 PropIds == {"C01", "C02", "C03", "C04", "C05", "C06", "C07", "C08", "C10", "C11", "C12", "C13", "C14",
             "C15", "C16", "C17", "INC"}
 
+(* ---- C11: a call made concurrently returns exactly what it returns when called alone ---- *)
+(* e.plan > 0: index of the call in the workload plan; e.phase = "solo" (the plan executed    *)
+(* sequentially on one goroutine) or "conc" (the same plan on many goroutines with adversary *)
+(* and collections)                                                                          *)
+Obs11(e) == [kind |-> e.kind, ok |-> e.ok, haserr |-> e.haserr, val |-> e.val]
+ConcFails(e) ==
+    IF e.plan = 0 \/ e.phase # "conc" THEN <<>>
+    ELSE IF e.plan \notin DOMAIN solo THEN F(FALSE, e, "INC", "concurrent event without its solo twin")
+    ELSE F(solo[e.plan] = Obs11(e), e, "C11", "a concurrent call returned something else than the same call run alone")
+
 Decisive(x) == x.class \in {"value", "error", "errorNV", "accept", "refuse"}
 
 (* eager (EXCEPT-based) counting: lazily built functions in the state would chain from state to state *)
@@ -254,15 +89,17 @@ Init == /\ l = 1
         /\ cnt = [c \in {"value", "error", "errorNV", "accept", "refuse", "any", "miss", "badhint", "row"} |-> 0]
         /\ canon = [kind |-> "none"]
         /\ usedIv = {}
+        /\ solo = <<>>
 
 Step == /\ l <= Len(Trace)
         /\ LET e == Trace[l]
                x == Expect(e)
-               new == Fails(e, x) \o GroupFails(e) \o SuiteFails(e) \o HexFieldFails(e) \o URLFails(e) \o FrameFails(e) \o LeakFails(e) \o RandFails(e)
+               new == Fails(e, x) \o GroupFails(e) \o SuiteFails(e) \o HexFieldFails(e) \o URLFails(e) \o FrameFails(e) \o LeakFails(e) \o RandFails(e) \o ConcFails(e)
            IN  /\ bad' = IF Len(bad) < MaxBad THEN bad \o new ELSE bad
                /\ nbad' = Bump(nbad, new)
                /\ cnt' = [cnt EXCEPT ![x.class] = @ + 1]
                /\ canon' = IF e.grp > 0 /\ e.first THEN Obs(e) ELSE canon
+               /\ solo' = IF e.plan > 0 /\ e.phase = "solo" THEN (IF e.plan = 1 THEN <<Obs11(e)>> ELSE Append(solo, Obs11(e))) ELSE solo
                /\ usedIv' = IF e.op = "RandomSecret" /\ e.kind = "value" THEN usedIv \cup Ivs(e.y.reads)
                             ELSE IF e.op = "StreamEnd" THEN {} ELSE usedIv
         /\ l' = l + 1
